@@ -1995,6 +1995,642 @@ theorem mapPipeline_flatten_paths {κ} (t0 : RawTree) (cfg : Config) (vote : Ora
   cases h
   exact ⟨path, hlink, hall⟩
 
+/-! ### the structure of `drop_level`'s result -/
+
+theorem lookup_setLevel_eq (levels : List (Level × LevelMap)) (l : Level) (m : LevelMap) :
+    (RawTree.setLevel levels l m).lookup l = (levels.lookup l).map (fun _ => m) := by
+  induction levels with
+  | nil => rfl
+  | cons a rest ih =>
+    obtain ⟨k', v⟩ := a
+    simp only [RawTree.setLevel, List.map_cons] at ih ⊢
+    by_cases hk : k' = l
+    · subst hk
+      simp [List.lookup]
+    · have hb : (k' == l) = false := by simpa using hk
+      have hb' : (l == k') = false := by simpa using (fun h : l = k' => hk h.symm)
+      simp only [hb, Bool.false_eq_true, if_false, List.lookup, hb']
+      exact ih
+
+/-- which level maps `drop_level` changes: none but the one of the level just
+above the dropped one, whose child lists become the grand-children -/
+theorem dropLevel_level {t t' : RawTree} {l : Level} (h : t.dropLevel l = .ok t')
+    {pre post : List Level} (hs : t.hierarchy = pre ++ l :: post) (hnd : t.hierarchy.Nodup) :
+    (∀ l', l' ≠ l → pre.getLast? ≠ some l' → t'.level l' = t.level l') ∧
+    (∀ pl, pre.getLast? = some pl →
+      t'.level pl = (t.level pl).map (fun nc => (nc.1, nc.2.flatMap (fun c => t.entry l c)))) := by
+  have hidx : t.hierarchy.idxOf? l = some pre.length := by
+    rw [hs]
+    rw [hs] at hnd
+    clear hs h
+    induction pre with
+    | nil => simp [List.idxOf?_cons]
+    | cons a pre ih =>
+      have h' := List.nodup_cons.mp hnd
+      have hne : a ≠ l := by
+        intro he; subst he; exact h'.1 (by simp)
+      have hb : (a == l) = false := by simpa using hne
+      simp only [List.cons_append, List.idxOf?_cons, hb, Bool.false_eq_true, if_false, ih h'.2]
+      rfl
+  unfold RawTree.dropLevel at h
+  cases hraw : t.dropLevelRaw l with
+  | error e => rw [hraw] at h; cases h
+  | ok t1 =>
+    rw [hraw] at h
+    simp only at h
+    have ht : t1 = t' := by
+      cases hv : t1.validate with
+      | error e => rw [hv] at h; cases h
+      | ok u => rw [hv] at h; cases h; rfl
+    subst ht
+    unfold RawTree.dropLevelRaw at hraw
+    split at hraw
+    · cases hraw
+    · simp only [RawTree.levelIdx, hidx] at hraw
+      split at hraw
+      · cases hraw
+      · have hfilt : ∀ l', l' ≠ l →
+            (t.levels.filter (fun x => x.1 != l)).lookup l' = t.levels.lookup l' := by
+          intro l' hne
+          apply lookup_filter_key
+          intro v
+          simpa using hne
+        split at hraw
+        · -- top level dropped
+          rename_i h0
+          have hp0 : pre = [] := by
+            have : pre.length = 0 := by simpa using h0
+            exact List.length_eq_zero_iff.mp this
+          subst hp0
+          cases hraw
+          refine ⟨?_, by simp⟩
+          intro l' hne _
+          simp only [RawTree.level, hfilt l' hne]
+        · rename_i h0
+          cases hprev : t.hierarchy[pre.length - 1]? with
+          | none => simp only [hprev] at hraw; cases hraw
+          | some pl =>
+            simp only [hprev] at hraw
+            cases hraw
+            -- pl is the last element of pre
+            have hlast : pre.getLast? = some pl := by
+              have hpos : 0 < pre.length := by
+                have : pre.length ≠ 0 := by simpa using h0
+                omega
+              rw [hs] at hprev
+              rw [List.getElem?_append_left (by omega)] at hprev
+              rw [List.getLast?_eq_getElem?]; exact hprev
+            have hpl_ne : pl ≠ l := by
+              intro he
+              rw [hs] at hnd
+              have hm : pl ∈ pre := List.mem_of_getLast? hlast
+              have := (List.nodup_append.mp hnd).2.2 pl hm l (by simp)
+              exact this he
+            refine ⟨?_, ?_⟩
+            · intro l' hne hnl
+              have hne' : l' ≠ pl := by
+                intro he; subst he; exact hnl hlast
+              simp only [RawTree.level, lookup_setLevel_ne _ _ _ _ hne', hfilt l' hne]
+            · intro pl' hpl'
+              rw [hlast] at hpl'
+              cases hpl'
+              simp only [RawTree.level, lookup_setLevel_eq, hfilt pl hpl_ne]
+              cases t.levels.lookup pl <;> simp
+
+/-! ### splits of a duplicate-free list -/
+
+theorem split_unique {α} : ∀ (a a' : List α) (x : α) (r r' : List α),
+    (a ++ x :: r).Nodup → a ++ x :: r = a' ++ x :: r' → a = a' ∧ r = r'
+  | [], [], _, _, _, _, h => by simp at h; exact ⟨rfl, h⟩
+  | [], y :: a', x, r, r', hn, h => by
+    simp only [List.nil_append, List.cons_append, List.cons.injEq] at h
+    obtain ⟨rfl, hr⟩ := h
+    rw [List.nil_append, hr] at hn
+    exact absurd (by simp) (List.nodup_cons.mp hn).1
+  | y :: a, [], x, r, r', hn, h => by
+    simp only [List.nil_append, List.cons_append, List.cons.injEq] at h
+    obtain ⟨rfl, _⟩ := h
+    exact absurd (by simp) (List.nodup_cons.mp hn).1
+  | y :: a, z :: a', x, r, r', hn, h => by
+    simp only [List.cons_append, List.cons.injEq] at h
+    obtain ⟨rfl, h'⟩ := h
+    obtain ⟨h1, h2⟩ := split_unique a a' x r r' (List.nodup_cons.mp hn).2 h'
+    exact ⟨by rw [h1], h2⟩
+
+/-- consecutive pairs of a list, in split form -/
+theorem mem_pairsOf_iff (x y : Level) : ∀ (zs : List Level),
+    (x, y) ∈ pairsOf zs ↔ ∃ a b, zs = a ++ x :: y :: b
+  | [] => by simp [pairsOf]
+  | [z] => by
+    simp only [pairsOf, List.tail_cons, List.zip_nil_right, List.not_mem_nil, false_iff]
+    rintro ⟨a, b, h⟩
+    have := congrArg List.length h
+    simp at this
+    omega
+  | z :: w :: rest => by
+    have hpairs : pairsOf (z :: w :: rest) = (z, w) :: pairsOf (w :: rest) := by simp [pairsOf]
+    rw [hpairs, List.mem_cons, mem_pairsOf_iff x y (w :: rest)]
+    constructor
+    · rintro (h | ⟨a, b, h⟩)
+      · cases h; exact ⟨[], rest, rfl⟩
+      · exact ⟨z :: a, b, by rw [h]; rfl⟩
+    · rintro ⟨a, b, h⟩
+      cases a with
+      | nil =>
+        simp only [List.nil_append, List.cons.injEq] at h
+        obtain ⟨rfl, rfl, _⟩ := h
+        exact Or.inl rfl
+      | cons a0 a =>
+        simp only [List.cons_append, List.cons.injEq] at h
+        exact Or.inr ⟨a, b, h.2⟩
+
+theorem mem_pairsOf_reverse_iff (c p : Level) (xs : List Level) :
+    (c, p) ∈ pairsOf xs.reverse ↔ ∃ a b, xs = a ++ p :: c :: b := by
+  rw [mem_pairsOf_iff]
+  constructor
+  · rintro ⟨a, b, h⟩
+    refine ⟨b.reverse, a.reverse, ?_⟩
+    have := congrArg List.reverse h
+    simpa using this
+  · rintro ⟨a, b, h⟩
+    refine ⟨b.reverse, a.reverse, ?_⟩
+    rw [h]; simp
+
+/-! ### the walk, children form -/
+
+/-- every assignment is a child (in the tree of the run) of the one above -/
+def KidsLinked (t : RawTree) : Parent → List (Level × Node) → Prop
+  | _, [] => True
+  | p, (l, n) :: rest => n ∈ kidsD t p ∧ KidsLinked t (some (l, n)) rest
+
+theorem walkFrom_kids {κ} {t : RawTree} {vote : Oracle κ} (hwf : wfb t = true)
+    (hv : VoteOK t vote) (c : κ) :
+    ∀ (ls pre : List Level) (p : Parent), t.hierarchy = pre ++ ls → At t pre p →
+      ∀ es, walkFrom t vote c ls p = .ok es → KidsLinked t p (assignments es)
+  | [], _, p, _, _, es, h => by
+    simp only [walkFrom] at h; cases h; simp [assignments, KidsLinked]
+  | cl :: rest, pre, p, hs, hat, es, h => by
+    have hpair : ∃ plo, (plo, cl) ∈ levelPairs t ∧ p ∈ parentNodeList t plo := by
+      rcases hat with ⟨rfl, rfl⟩ | ⟨pre', pl, n, rfl, rfl, hn⟩
+      · refine ⟨none, ?_, by simp [parentNodeList]⟩
+        unfold levelPairs; rw [hs]; simp
+      · refine ⟨some pl, ?_, (mem_parentNodeList_some t pl _).mpr ⟨n, hn, rfl⟩⟩
+        unfold levelPairs; rw [hs, List.append_assoc]
+        exact mem_zip_of_split pl cl rest pre' none
+    obtain ⟨plo, hmem, hp⟩ := hpair
+    have facts := levelOK_facts t plo cl (wfb_levelOK hwf hmem)
+    obtain ⟨kids, hkids, hkne, hsub⟩ := facts.kids p hp
+    have hkne' : kids.isEmpty = false := by
+      cases kids with
+      | nil => exact absurd rfl hkne
+      | cons a b => rfl
+    have ha := voteFn_mem hv p cl kids c hkne
+    have hnode : (voteFn t vote p cl kids c).assignment ∈ t.nodesAt cl := by
+      obtain ⟨k, hk, he⟩ := (mem_parentNodeList_some t cl _).mp (hsub _ ha)
+      cases he; exact hk
+    simp only [walkFrom, hkids, hkne', Bool.false_eq_true, if_false] at h
+    cases hrest : walkFrom t vote c rest (some (cl, (voteFn t vote p cl kids c).assignment)) with
+    | error e => rw [hrest] at h; cases h
+    | ok tl =>
+      rw [hrest] at h
+      cases h
+      have ih := walkFrom_kids hwf hv c rest (pre ++ [cl])
+        (some (cl, (voteFn t vote p cl kids c).assignment)) (by rw [hs]; simp)
+        (Or.inr ⟨pre, cl, _, rfl, rfl, hnode⟩) tl hrest
+      have hassign : (entryOf (voteFn t vote p cl kids c)).assignment =
+          (voteFn t vote p cl kids c).assignment := by
+        unfold entryOf; split <;> rfl
+      simp only [assignments, List.map_cons, KidsLinked, hassign]
+      exact ⟨by rw [kidsD_of_ok hkids]; exact ha, ih⟩
+
+/-- `KidsLinked` in split / lookup form -/
+theorem kidsLinked_split (t : RawTree) : ∀ (A : List (Level × Node)) (par : Parent),
+    (A.map (·.1)).Nodup → KidsLinked t par A →
+    (∀ l n, A.head? = some (l, n) → n ∈ kidsD t par) ∧
+    ∀ a p c b, A.map (·.1) = a ++ p :: c :: b →
+      ((A.lookup c).getD 0) ∈ kidsD t (some (p, (A.lookup p).getD 0))
+  | [], _, _, _ => by
+    refine ⟨by simp, ?_⟩
+    intro a p c b h
+    have := congrArg List.length h
+    simp at this
+  | (l, n) :: rest, par, hnd, hk => by
+    simp only [KidsLinked] at hk
+    simp only [List.map_cons] at hnd
+    have hnd' := List.nodup_cons.mp hnd
+    obtain ⟨ih1, ih2⟩ := kidsLinked_split t rest (some (l, n)) hnd'.2 hk.2
+    refine ⟨by intro l' n' h; simp at h; obtain ⟨rfl, rfl⟩ := h; exact hk.1, ?_⟩
+    intro a p c b h
+    simp only [List.map_cons] at h
+    cases a with
+    | nil =>
+      simp only [List.nil_append, List.cons.injEq] at h
+      obtain ⟨rfl, hrest⟩ := h
+      -- p = l is the head; c is the head of rest
+      have hcl : c ≠ l := by
+        intro he; subst he
+        exact hnd'.1 (by rw [hrest]; simp)
+      have hb : (c == l) = false := by simpa using hcl
+      simp only [List.lookup, beq_self_eq_true, hb, Option.getD_some]
+      cases rest with
+      | nil => simp at hrest
+      | cons r0 rest' =>
+        obtain ⟨l0, n0⟩ := r0
+        simp only [List.map_cons, List.cons.injEq] at hrest
+        obtain ⟨rfl, _⟩ := hrest
+        simp only [List.lookup, beq_self_eq_true, Option.getD_some]
+        exact ih1 l0 n0 rfl
+    | cons a0 a' =>
+      simp only [List.cons_append, List.cons.injEq] at h
+      obtain ⟨rfl, hrest⟩ := h
+      have hpm : p ∈ rest.map (·.1) := by rw [hrest]; simp
+      have hcm : c ∈ rest.map (·.1) := by rw [hrest]; simp
+      have hp : (p == l) = false := by
+        have : p ≠ l := fun he => hnd'.1 (he ▸ hpm)
+        simpa using this
+      have hc : (c == l) = false := by
+        have : c ≠ l := fun he => hnd'.1 (he ▸ hcm)
+        simpa using this
+      simp only [List.lookup, hp, hc]
+      exact ih2 a' p c b hrest
+
+/-! ### drop_level: a path of the reduced tree, completed, is a path of the stored tree -/
+
+theorem kidsD_eq_entry {t : RawTree} {l : Level} (hk : (t.nodesAt l).Nodup) {m : Node}
+    (hm : m ∈ t.nodesAt l) : kidsD t (some (l, m)) = t.entry l m := by
+  obtain ⟨⟨m0, cs⟩, hmem, he⟩ := List.mem_map.mp hm
+  simp only at he; subst he
+  rw [kidsD_of_mem_level hk hmem]
+  simp [RawTree.entry, lookup_of_mem_nodup _ m0 cs hk hmem]
+
+theorem drop_nodesAt {t t' : RawTree} {l : Level} (h : t.dropLevel l = .ok t')
+    {pre post : List Level} (hs : t.hierarchy = pre ++ l :: post) (hnd : t.hierarchy.Nodup)
+    {l' : Level} (hne : l' ≠ l) : t'.nodesAt l' = t.nodesAt l' := by
+  obtain ⟨h1, h2⟩ := dropLevel_level h hs hnd
+  by_cases hp : pre.getLast? = some l'
+  · simp only [RawTree.nodesAt, h2 l' hp, List.map_map]
+    rfl
+  · simp only [RawTree.nodesAt, h1 l' hne hp]
+
+theorem drop_kids_same {t t' : RawTree} {l : Level} (hwf : wfb t = true)
+    (h : t.dropLevel l = .ok t')
+    {pre post : List Level} (hs : t.hierarchy = pre ++ l :: post)
+    {l' : Level} (hne : l' ≠ l) (hnl : pre.getLast? ≠ some l') (hl' : l' ∈ t.hierarchy)
+    {p : Node} (hp : p ∈ t.nodesAt l') : kidsD t' (some (l', p)) = kidsD t (some (l', p)) := by
+  have hnd := wfb_nodup_hierarchy hwf
+  have hk := wfb_nodup_nodesAt hwf hl'
+  obtain ⟨h1, _⟩ := dropLevel_level h hs hnd
+  obtain ⟨⟨p0, cs⟩, hmem, he⟩ := List.mem_map.mp hp
+  simp only at he; subst he
+  have hmem' : (p0, cs) ∈ t'.level l' := by rw [h1 l' hne hnl]; exact hmem
+  have hk' : (t'.nodesAt l').Nodup := by rw [drop_nodesAt h hs hnd hne]; exact hk
+  rw [kidsD_of_mem_level hk' hmem', kidsD_of_mem_level hk hmem]
+
+theorem drop_kids_parent {t t' : RawTree} {l : Level} (hwf : wfb t = true)
+    (h : t.dropLevel l = .ok t')
+    {pre post : List Level} (hs : t.hierarchy = pre ++ l :: post)
+    {pl : Level} (hpl : pre.getLast? = some pl)
+    {p : Node} (hp : p ∈ t.nodesAt pl) :
+    kidsD t' (some (pl, p)) = (kidsD t (some (pl, p))).flatMap (fun c => t.entry l c) := by
+  have hnd := wfb_nodup_hierarchy hwf
+  have hplm : pl ∈ pre := List.mem_of_getLast? hpl
+  have hpl_h : pl ∈ t.hierarchy := by rw [hs]; simp [hplm]
+  have hne : pl ≠ l := by
+    intro he
+    rw [hs] at hnd
+    exact (List.nodup_append.mp hnd).2.2 pl hplm l (by simp) he
+  have hk := wfb_nodup_nodesAt hwf hpl_h
+  obtain ⟨_, h2⟩ := dropLevel_level h hs hnd
+  obtain ⟨⟨p0, cs⟩, hmem, he⟩ := List.mem_map.mp hp
+  simp only at he; subst he
+  have hmem' : (p0, cs.flatMap (fun c => t.entry l c)) ∈ t'.level pl := by
+    rw [h2 pl hpl]
+    exact List.mem_map.mpr ⟨(p0, cs), hmem, rfl⟩
+  have hk' : (t'.nodesAt pl).Nodup := by rw [drop_nodesAt h hs hnd hne]; exact hk
+  rw [kidsD_of_mem_level hk' hmem', kidsD_of_mem_level hk hmem]
+
+/-- the path of the stored tree obtained from the assignments `A` voted on the
+reduced tree: the dropped level gets the parent of the finer assignment -/
+def dropPath (t0 : RawTree) (l cl : Level) (A : List (Level × Node)) (x : Level) : Node :=
+  if x = l then (t0.childToParent cl ((A.lookup cl).getD 0)).getD 0 else (A.lookup x).getD 0
+
+theorem drop_path_links {t0 t' : RawTree} {l cl : Level} {pre post : List Level}
+    (hwf0 : wfb t0 = true) (hdrop : t0.dropLevel l = .ok t')
+    (hs : t0.hierarchy = pre ++ l :: cl :: post)
+    (A : List (Level × Node)) (hkeys : A.map (·.1) = t'.hierarchy)
+    (hkl : KidsLinked t' none A) (hnodes : ∀ xn ∈ A, xn.2 ∈ t'.nodesAt xn.1) :
+    (∀ cp ∈ pairsOf t0.hierarchy.reverse,
+      t0.childToParent cp.1 (dropPath t0 l cl A cp.1) = some (dropPath t0 l cl A cp.2)) ∧
+    ∀ x ∈ t0.hierarchy, dropPath t0 l cl A x ∈ t0.nodesAt x := by
+  have hnd := wfb_nodup_hierarchy hwf0
+  obtain ⟨_, hh'⟩ := dropLevel_hierarchy hdrop
+  have hl_pre : l ∉ pre := by
+    intro hm
+    rw [hs] at hnd
+    exact (List.nodup_append.mp hnd).2.2 l hm l (by simp) rfl
+  have hh'' : t'.hierarchy = pre ++ cl :: post := by
+    rw [hh', hs, List.erase_append_right _ hl_pre, List.erase_cons_head]
+  have hcl_ne : cl ≠ l := by
+    intro he
+    rw [hs] at hnd
+    have := (List.nodup_append.mp hnd).2.1
+    rw [he] at this
+    exact (List.nodup_cons.mp this).1 (by simp)
+  have hnd' : (A.map (·.1)).Nodup := by rw [hkeys, hh']; exact hnd.erase l
+  obtain ⟨_, hK⟩ := kidsLinked_split t' A none hnd' hkl
+  rw [hkeys] at hK
+  -- nodes, in the stored tree
+  have hN : ∀ x, x ∈ t'.hierarchy → (A.lookup x).getD 0 ∈ t0.nodesAt x := by
+    intro x hx
+    have hxl : x ≠ l := by
+      intro he; rw [he, hh'] at hx; exact hnd.not_mem_erase hx
+    have hsome := lookup_isSome_of_keys A x (by rw [hkeys]; exact hx)
+    cases hlk : A.lookup x with
+    | none => rw [hlk] at hsome; cases hsome
+    | some n =>
+      have := hnodes (x, n) (mem_of_lookup _ _ _ hlk)
+      rw [drop_nodesAt hdrop hs hnd hxl] at this
+      simpa using this
+  have hcl_mem : cl ∈ t'.hierarchy := by rw [hh'']; simp
+  obtain ⟨m, hm_node, hm⟩ := has_parent hwf0 hs (hN cl hcl_mem)
+  have hpath_l : dropPath t0 l cl A l = m := by simp [dropPath, hm]
+  have hpath_ne : ∀ x, x ≠ l → dropPath t0 l cl A x = (A.lookup x).getD 0 := by
+    intro x hx; simp [dropPath, hx]
+  have hmem_t' : ∀ x, x ≠ l → x ∈ t0.hierarchy → x ∈ t'.hierarchy := by
+    intro x hx hm'; rw [hh']; exact hnd.mem_erase_iff.mpr ⟨hx, hm'⟩
+  refine ⟨?_, ?_⟩
+  · intro cp hmem
+    obtain ⟨c, p⟩ := cp
+    obtain ⟨a, b, hsplit⟩ := (mem_pairsOf_reverse_iff c p t0.hierarchy).mp hmem
+    simp only
+    by_cases hc : c = l
+    · -- (l, p): p is the level just above the dropped one
+      subst hc
+      have hp_ne : p ≠ c := by
+        intro he; subst he
+        rw [hsplit] at hnd
+        have := (List.nodup_append.mp hnd).2.1
+        exact (List.nodup_cons.mp this).1 (by simp)
+      have heq : (a ++ [p]) ++ c :: b = pre ++ c :: (cl :: post) := by
+        rw [← hs, hsplit]; simp
+      obtain ⟨hpre, hb⟩ := split_unique (a ++ [p]) pre c b (cl :: post)
+        (by rw [heq, ← hs]; exact hnd) heq
+      have hlast : pre.getLast? = some p := by rw [← hpre]; simp
+      have hp_t' : p ∈ t'.hierarchy := hmem_t' p hp_ne (by rw [hsplit]; simp)
+      have hsplit' : t'.hierarchy = a ++ p :: cl :: post := by rw [hh'', ← hpre]; simp
+      have hk := hK a p cl post hsplit'
+      rw [drop_kids_parent hwf0 hdrop hs hlast (hN p hp_t')] at hk
+      obtain ⟨m', hm'k, hm'e⟩ := List.mem_flatMap.mp hk
+      -- m' is a node of level c
+      have hpair : (some p, c) ∈ levelPairs t0 := by
+        unfold levelPairs; rw [hsplit]; exact mem_zip_of_split p c b a none
+      have facts := levelOK_facts t0 (some p) c (wfb_levelOK hwf0 hpair)
+      obtain ⟨kids, hkids, _, hsub⟩ := facts.kids (some (p, (A.lookup p).getD 0))
+        ((mem_parentNodeList_some t0 p _).mpr ⟨_, hN p hp_t', rfl⟩)
+      rw [kidsD_of_ok hkids] at hm'k
+      have hm'node : m' ∈ t0.nodesAt c := by
+        obtain ⟨k, hk', he⟩ := (mem_parentNodeList_some t0 c _).mp (hsub m' hm'k)
+        cases he; exact hk'
+      have hc_h : c ∈ t0.hierarchy := by rw [hs]; simp
+      have hm'e' : (A.lookup cl).getD 0 ∈ kidsD t0 (some (c, m')) := by
+        rw [kidsD_eq_entry (wfb_nodup_nodesAt hwf0 hc_h) hm'node]; exact hm'e
+      have h1 := childToParent_of_kid hwf0 hs hm'node hm'e'
+      rw [hm] at h1
+      cases h1
+      rw [hpath_l, hpath_ne p hp_ne]
+      exact childToParent_of_kid hwf0 hsplit (hN p hp_t') (by rw [kidsD_of_ok hkids]; exact hm'k)
+    · by_cases hp : p = l
+      · -- (cl, l)
+        subst hp
+        obtain ⟨_, hb⟩ := split_unique a pre p (c :: b) (cl :: post)
+          (by rw [← hsplit]; exact hnd) (by rw [← hsplit, hs])
+        have hccl : c = cl := by cases hb; rfl
+        subst hccl
+        rw [hpath_l, hpath_ne c hc]
+        exact hm
+      · -- neither is the dropped level
+        have hc_t' : c ∈ t'.hierarchy := hmem_t' c hc (by rw [hsplit]; simp)
+        have hp_t' : p ∈ t'.hierarchy := hmem_t' p hp (by rw [hsplit]; simp)
+        have hsplit' : ∃ a' b', t'.hierarchy = a' ++ p :: c :: b' := by
+          by_cases hla : l ∈ a
+          · exact ⟨a.erase l, b, by rw [hh', hsplit, List.erase_append_left _ hla]⟩
+          · refine ⟨a, b.erase l, ?_⟩
+            rw [hh', hsplit, List.erase_append_right _ hla]
+            have h1 : (p == l) = false := by simpa using hp
+            have h2 : (c == l) = false := by simpa using hc
+            simp [List.erase_cons, h1, h2]
+        obtain ⟨a', b', hs'⟩ := hsplit'
+        have hk := hK a' p c b' hs'
+        have hnl : pre.getLast? ≠ some p := by
+          intro hlast
+          obtain ⟨pre', hpre'⟩ := List.getLast?_eq_some_iff.mp hlast
+          have e1 : t0.hierarchy = pre' ++ p :: (l :: cl :: post) := by rw [hs, hpre']; simp
+          obtain ⟨_, hb⟩ := split_unique a pre' p (c :: b) (l :: cl :: post)
+            (by rw [← hsplit]; exact hnd) (by rw [← hsplit, e1])
+          cases hb
+          exact hc rfl
+        rw [drop_kids_same hwf0 hdrop hs hp hnl (by rw [hsplit]; simp) (hN p hp_t')] at hk
+        rw [hpath_ne c hc, hpath_ne p hp]
+        exact childToParent_of_kid hwf0 hsplit (hN p hp_t') hk
+  · intro x hx
+    by_cases hxl : x = l
+    · subst hxl; rw [hpath_l]; exact hm_node
+    · rw [hpath_ne x hxl]; exact hN x (hmem_t' x hxl hx)
+
+theorem lookup_map_snd {β γ} (f : β → γ) (k : Nat) : ∀ (m : List (Nat × β)),
+    (m.map (fun le => (le.1, f le.2))).lookup k = (m.lookup k).map f
+  | [] => rfl
+  | (k', v) :: m => by
+    simp only [List.map_cons, List.lookup]
+    split
+    · rfl
+    · exact lookup_map_snd f k m
+
+theorem lookup_map_keyed {β γ} (g : Nat → β → γ) (k : Nat) : ∀ (m : List (Nat × β)),
+    (m.map (fun le => (le.1, g le.1 le.2))).lookup k = (m.lookup k).map (g k)
+  | [] => rfl
+  | (k', v) :: m => by
+    simp only [List.map_cons, List.lookup]
+    by_cases hk : k = k'
+    · subst hk; simp
+    · have hb : (k == k') = false := by simpa using hk
+      simp only [hb]
+      exact lookup_map_keyed g k m
+
+/-- what `markDirect` does to the dict of level `k` -/
+def flagDirect (h : List Level) (k : Level) (e : Entry) : Entry :=
+  if h.contains k then { e with direct := some true } else e
+
+theorem markDirect_levels (h : List Level) (r : Record) :
+    (markDirect h r).levels = r.levels.map (fun le => (le.1, flagDirect h le.1 le.2)) := by
+  simp only [markDirect]
+  apply List.map_congr_left
+  intro le _
+  obtain ⟨k, e⟩ := le
+  simp only [flagDirect]
+  by_cases hc : h.contains k = true
+  · simp only [hc, if_true]
+  · have : h.contains k = false := by simpa using hc
+    simp only [this, Bool.false_eq_true, if_false]
+
+theorem markDirect_lookup (h : List Level) (r : Record) (x : Level) :
+    (markDirect h r).levels.lookup x = (r.levels.lookup x).map (flagDirect h x) := by
+  rw [markDirect_levels]
+  exact lookup_map_keyed (flagDirect h) x r.levels
+
+theorem assignments_markDirect (h : List Level) (r : Record) :
+    assignments (markDirect h r).levels = assignments r.levels := by
+  simp only [assignments, markDirect, List.map_map]
+  apply List.map_congr_left
+  intro le _
+  obtain ⟨l, e⟩ := le
+  simp only [Function.comp]
+  split <;> rfl
+
+/-- a run with a level dropped never fails (given the reduced tree is
+well-formed) and backfills every cell to a root-to-leaf path of the stored
+tree: voted levels flagged `True`, the dropped level inferred and flagged
+`False` -/
+theorem mapPipeline_drop_paths {κ} (t0 t' : RawTree) (cfg : Config) (vote : Oracle κ)
+    (l cl : Level) (pre post : List Level)
+    (ids : List CellId) (cells : List κ) (order : List Nat)
+    (hcfg : cfg.dropLevel = some l) (hflat : cfg.flatten = false)
+    (hdrop : t0.dropLevel l = .ok t') (hs : t0.hierarchy = pre ++ l :: cl :: post)
+    (hwf0 : wfb t0 = true) (hwf : wfb t' = true) (hv : VoteOK t' vote)
+    (hlen : ids.length = cells.length) (hnd : ids.Nodup)
+    (hproc : 1 ≤ cfg.nProc) (hcs : 1 ≤ cfg.chunkSize)
+    (horder : order.Perm (List.range
+      (chunks cells.length (effChunk cells.length cfg.nProc cfg.chunkSize)).length)) :
+    ∃ out, mapPipeline t0 cfg vote ids cells order = .ok out ∧ out.length = cells.length ∧
+      ∀ o ∈ out, ∃ path : Level → Node,
+        (∀ cp ∈ pairsOf t0.hierarchy.reverse,
+          t0.childToParent cp.1 (path cp.1) = some (path cp.2)) ∧
+        ∀ x ∈ t0.hierarchy, path x ∈ t0.nodesAt x ∧
+          ∃ e', o.levels.lookup x = some e' ∧ e'.assignment = path x ∧
+            (x = l → e'.direct = some false ∧ e'.ru = none) ∧
+            (x ≠ l → e'.direct = some true) := by
+  have hnd0 := wfb_nodup_hierarchy hwf0
+  obtain ⟨hl_mem, hh'⟩ := dropLevel_hierarchy hdrop
+  have hrun : runTree t0 cfg = .ok t' := by
+    have : t0.hierarchy.contains l = true := by simpa using hl_mem
+    simp only [runTree, hcfg, this, if_true, hdrop, hflat, Bool.false_eq_true, if_false]
+  rw [mapPipeline_spec t0 t' cfg vote ids cells order hrun hwf hv hlen hnd hproc hcs horder]
+  unfold backfill
+  have hdh := dropCells_hierarchy t0
+  have hndr := nodup_reverse hnd0
+  have hl_not : l ∉ t'.hierarchy := by rw [hh']; exact hnd0.not_mem_erase
+  have hmem_t' : ∀ x, x ≠ l → x ∈ t0.hierarchy → x ∈ t'.hierarchy := by
+    intro x hx hm'; rw [hh']; exact hnd0.mem_erase_iff.mpr ⟨hx, hm'⟩
+  have hcl_pair : (cl, l) ∈ pairsOf t0.hierarchy.reverse :=
+    (mem_pairsOf_reverse_iff cl l t0.hierarchy).mpr ⟨pre, post, hs⟩
+  -- what backfilling does to one record
+  have hone : ∀ r ∈ (List.zipWith (mkRecord t' vote) ids cells).map (markDirect t'.hierarchy),
+      ∃ r', backfillPairs t0.dropCells (pairsOf t0.dropCells.hierarchy.reverse) r = .ok r' ∧
+        ∃ path : Level → Node,
+          (∀ cp ∈ pairsOf t0.hierarchy.reverse,
+            t0.childToParent cp.1 (path cp.1) = some (path cp.2)) ∧
+          ∀ x ∈ t0.hierarchy, path x ∈ t0.nodesAt x ∧
+            ∃ e', r'.levels.lookup x = some e' ∧ e'.assignment = path x ∧
+              (x = l → e'.direct = some false ∧ e'.ru = none) ∧
+              (x ≠ l → e'.direct = some true) := by
+    intro r hr
+    obtain ⟨r0, hr0, rfl⟩ := List.mem_map.mp hr
+    obtain ⟨id, c, rfl⟩ := mem_zipWith_exists _ _ _ _ hr0
+    have hkeys := record_keys hwf hv id c
+    -- the walk
+    obtain ⟨es, hes, hfst, hnodes, _⟩ :=
+      walkFrom_path hwf hv c t'.hierarchy [] none (by simp) (Or.inl ⟨rfl, rfl⟩)
+    have hkl := walkFrom_kids hwf hv c t'.hierarchy [] none (by simp) (Or.inl ⟨rfl, rfl⟩) es hes
+    have hwalk : walkD t' vote c = finishCell es := by simp [walkD, walk, hes]
+    generalize hR : markDirect t'.hierarchy (mkRecord t' vote id c) = R at hkeys
+    have hA : assignments R.levels = assignments es := by
+      rw [← hR, assignments_markDirect]
+      simp only [mkRecord, hwalk, assignments_finishCell]
+    have hAkeys : (assignments R.levels).map (·.1) = t'.hierarchy := by
+      rw [← hkeys]; simp [assignments]
+    have hAnodes : ∀ xn ∈ assignments R.levels, xn.2 ∈ t'.nodesAt xn.1 := by
+      intro xn hxn
+      rw [hA] at hxn
+      obtain ⟨le, hle, rfl⟩ := List.mem_map.mp hxn
+      exact hnodes le hle
+    obtain ⟨hlinks, hpnodes⟩ := drop_path_links hwf0 hdrop hs (assignments R.levels) hAkeys
+      (by rw [hA]; exact hkl) hAnodes
+    have hlk : ∀ x, (assignments R.levels).lookup x = (R.levels.lookup x).map (·.assignment) := by
+      intro x; exact lookup_map_snd (fun e : Entry => e.assignment) x R.levels
+    have hpres : ∀ x, x ∈ t'.hierarchy → (R.levels.lookup x).isSome := by
+      intro x hx; exact lookup_isSome_of_keys _ _ (by rw [hkeys]; exact hx)
+    have habs : ∀ x, x ∉ t'.hierarchy → R.levels.lookup x = none := by
+      intro x hx; exact lookup_none_of_not_keys _ _ (by rw [hkeys]; exact hx)
+    obtain ⟨r', h1, _, h3, h4, _, h6⟩ := backfillPairs_spec t0.dropCells
+      (dropPath t0 l cl (assignments R.levels)) t0.hierarchy.reverse R hndr
+      (fun cp hm => by rw [childToParent_dropCells hnd0]; exact hlinks cp hm)
+      (fun x e hx => by
+        have hxm : x ∈ t'.hierarchy := by
+          by_cases hm : x ∈ t'.hierarchy
+          · exact hm
+          · rw [habs x hm] at hx; cases hx
+        have hxl : x ≠ l := fun he => hl_not (he ▸ hxm)
+        simp [dropPath, hxl, hlk, hx])
+      (fun x hx => by
+        apply hpres
+        have hxm : x ∈ t0.hierarchy := List.mem_reverse.mp (List.mem_of_mem_head? hx)
+        apply hmem_t' x _ hxm
+        intro he
+        subst he
+        have hl_tail : x ∈ t0.hierarchy.reverse.tail := by
+          have : (cl, x) ∈ t0.hierarchy.reverse.zip t0.hierarchy.reverse.tail := hcl_pair
+          exact (List.of_mem_zip this).2
+        cases hrev : t0.hierarchy.reverse with
+        | nil => rw [hrev] at hx; cases hx
+        | cons y ys =>
+          rw [hrev] at hx hl_tail hndr
+          simp only [List.head?_cons, Option.some.injEq] at hx
+          subst hx
+          exact (List.nodup_cons.mp hndr).1 hl_tail)
+    refine ⟨r', by rw [hdh]; exact h1, dropPath t0 l cl (assignments R.levels), hlinks, ?_⟩
+    intro x hx
+    obtain ⟨e', he', ha'⟩ := h3 x (List.mem_reverse.mpr hx)
+    refine ⟨hpnodes x hx, e', he', ha', ?_, ?_⟩
+    · intro hxl
+      subst hxl
+      obtain ⟨ec, _, hpe⟩ := h6 (cl, x) hcl_pair (habs x hl_not)
+      simp only at hpe
+      rw [he'] at hpe
+      cases hpe
+      exact ⟨rfl, rfl⟩
+    · intro hxl
+      have hxm := hmem_t' x hxl hx
+      have hsome := hpres x hxm
+      cases hRx : R.levels.lookup x with
+      | none => rw [hRx] at hsome; cases hsome
+      | some e =>
+        have := h4 x e hRx
+        rw [he'] at this
+        cases this
+        -- e comes out of markDirect with x in the run's hierarchy
+        have hmd := markDirect_lookup t'.hierarchy (mkRecord t' vote id c) x
+        rw [hR, hRx] at hmd
+        have hc : t'.hierarchy.contains x = true := by simpa using hxm
+        cases hl0 : (mkRecord t' vote id c).levels.lookup x with
+        | none => rw [hl0] at hmd; cases hmd
+        | some e0 =>
+          rw [hl0] at hmd
+          simp only [Option.map_some, Option.some.injEq, flagDirect, hc, if_true] at hmd
+          rw [hmd]
+  obtain ⟨out, hout, hlen', hpt⟩ := mapM_ok_of_forall
+    (backfillPairs t0.dropCells (pairsOf t0.dropCells.hierarchy.reverse)) _
+    (fun r hr => by obtain ⟨r', h, _⟩ := hone r hr; exact ⟨r', h⟩)
+  refine ⟨out, hout, by simp [hlen', hlen], ?_⟩
+  intro o ho
+  obtain ⟨i, hi, rfl⟩ := List.getElem_of_mem ho
+  have hi' : i < ((List.zipWith (mkRecord t' vote) ids cells).map
+      (markDirect t'.hierarchy)).length := by omega
+  have hf := hpt i _ out[i] (List.getElem?_eq_getElem hi') (List.getElem?_eq_getElem hi)
+  obtain ⟨r', h, hrest⟩ := hone _ (List.getElem_mem hi')
+  rw [hf] at h
+  cases h
+  exact hrest
+
 /-! ### a concrete instance for the non-vacuity examples of `Props/C01, C06, C17` -/
 
 /-! a 3-level taxonomy with a single top node (10), a single-child parent (20)
